@@ -324,7 +324,17 @@ func (d *Decoder) decodeRegisteredObject() Object {
 		return nil
 	}
 
-	o := reflect.New(_typ.Elem()).Interface().(Object)
+	var o Object
+	if _typ.Kind() == reflect.Ptr {
+		o = reflect.New(_typ.Elem()).Interface().(Object)
+	} else {
+		// enum values are registered by value: a named uint32 that holds the constructor id itself
+		v := reflect.New(_typ).Elem()
+		if v.Kind() == reflect.Uint32 {
+			v.SetUint(uint64(crc))
+		}
+		o = v.Interface().(Object)
+	}
 
 	if m, ok := o.(Unmarshaler); ok {
 		err := m.UnmarshalTL(d)
